@@ -26,10 +26,25 @@ def main():
         try:
             obs = mod.run(inp)
             orc = mod.oracle(inp, obs)
-            term = mod.to_coq(inp, obs)
-            extra = mod.extra_terms(inp, obs) if hasattr(mod, "extra_terms") else []
-            nt = bool(mod.nontrivial(inp, obs))
+            from .core_runs import TapeTooWide
+            try:
+                term = mod.to_coq(inp, obs)
+                extra = mod.extra_terms(inp, obs) if hasattr(mod, "extra_terms") else []
+            except TapeTooWide:
+                term, extra = None, []
+                if orc is None:
+                    orc = {"why": "the implementation requested draws far wider than any shuffle / sign / choice of the design calls for (answers above 10^5)", "cls": "draws:draws-depend-on-data"}
+            except Exception:
+                if orc is None:
+                    raise
+                term, extra = None, []      # a case the oracle already rejects: its verdict stands, no Gallina term is written
             key = mod.key(inp)
+            try:
+                nt = bool(mod.nontrivial(inp, obs))
+            except Exception:
+                if orc is None:
+                    raise
+                nt = False      # a case the oracle already rejects: its verdict stands
         except Exception as e:  # harness bug or an implementation failure outside the mapped ones
             from .tape import MirrorMismatch
             if isinstance(e, MirrorMismatch):
